@@ -22,6 +22,9 @@ import time
 import traceback
 
 VERIF = os.path.dirname(os.path.dirname(os.path.abspath(__file__)))
+# Where evidence/ and replay/ are written; runs against a scratch tree (seeded changes) set VERIF_OUT so that the
+# committed evidence of the real tree is not overwritten.
+OUT = os.environ.get('VERIF_OUT', VERIF)
 MAX_VIOLATIONS_PER_SHARD = 40
 MAX_OUTCOMES = 400000
 MAX_DISTINCT = 6000000
@@ -229,7 +232,7 @@ def finish(mod, tier, seed, total, errors, wall, nshards, slowest):
     out = []
     for fid, (ent, n) in sorted(known_lines.items()):
         out.append('KNOWN-FINDING: property=%s %s: %s [%d distinct signatures this run]' % (pid, fid, ent['what'], n))
-    replay_dir = os.path.join(VERIF, 'replay')
+    replay_dir = os.path.join(OUT, 'replay')
     os.makedirs(replay_dir, exist_ok=True)
     for name in os.listdir(replay_dir):
         if name.startswith(pid + '-'):
@@ -279,8 +282,8 @@ def finish(mod, tier, seed, total, errors, wall, nshards, slowest):
         'wall_s': round(wall, 2),
         'violations': len(unknown),
     }
-    os.makedirs(os.path.join(VERIF, 'evidence'), exist_ok=True)
-    with open(os.path.join(VERIF, 'evidence', pid + '.json'), 'w') as f:
+    os.makedirs(os.path.join(OUT, 'evidence'), exist_ok=True)
+    with open(os.path.join(OUT, 'evidence', pid + '.json'), 'w') as f:
         json.dump(evidence, f, indent=1, default=str)
         f.write('\n')
     print('%s tier=%s seed=%d shards=%d evaluations=%d distinct_nontrivial=%d outcomes=%d states=%d transitions=%d '
